@@ -378,6 +378,9 @@ func appendSlice(expr ast.Expr, lhsV reflect.Value, rhsV reflect.Value) (reflect
 	}
 
 	if !leftHasSubArray && !rightHasSubArray {
+		// convert every element before appending any: a failing append must not write into the
+		// spare capacity that lhsV may share with other slices
+		converted := make([]reflect.Value, 0, rhsV.Len())
 		for i := 0; i < rhsV.Len(); i++ {
 			value := rhsV.Index(i)
 			if rhsT == interfaceType {
@@ -387,23 +390,24 @@ func appendSlice(expr ast.Expr, lhsV reflect.Value, rhsV reflect.Value) (reflect
 				// a nil element: the zero value where the element type has a nil, otherwise no conversion
 				switch lhsT.Kind() {
 				case reflect.Ptr, reflect.Map, reflect.Slice, reflect.Func, reflect.Chan, reflect.Interface:
-					lhsV = reflect.Append(lhsV, reflect.Zero(lhsT))
+					converted = append(converted, reflect.Zero(lhsT))
 					continue
 				}
 				return nilValue, newStringError(expr, "invalid type conversion")
 			}
 			if lhsT == value.Type() {
-				lhsV = reflect.Append(lhsV, value)
+				converted = append(converted, value)
 			} else if value.Type().ConvertibleTo(lhsT) {
-				lhsV = reflect.Append(lhsV, value.Convert(lhsT))
+				converted = append(converted, value.Convert(lhsT))
 			} else {
 				return nilValue, newStringError(expr, "invalid type conversion")
 			}
 		}
-		return lhsV, nil
+		return reflect.Append(lhsV, converted...), nil
 	}
 
 	if (leftHasSubArray || lhsT == interfaceType) && (rightHasSubArray || rhsT == interfaceType) {
+		converted := make([]reflect.Value, 0, rhsV.Len())
 		for i := 0; i < rhsV.Len(); i++ {
 			value := rhsV.Index(i)
 			if rhsT == interfaceType {
@@ -416,9 +420,9 @@ func appendSlice(expr ast.Expr, lhsV reflect.Value, rhsV reflect.Value) (reflect
 			if err != nil {
 				return nilValue, err
 			}
-			lhsV = reflect.Append(lhsV, newSlice)
+			converted = append(converted, newSlice)
 		}
-		return lhsV, nil
+		return reflect.Append(lhsV, converted...), nil
 	}
 
 	return nilValue, newStringError(expr, "invalid type conversion")
